@@ -1,0 +1,16 @@
+//go:build verif
+
+package peerauth
+
+// Machine-checked contracts (govc, see /verif/DESIGN.md). Comment-only file.
+
+//@ fileprops C33
+
+// A peer is trusted only if the connection's AuthInfo is the value this package installs
+// after a successful TLS handshake with a supported key (its dynamic type is AuthInfo).
+//@ ghost pred peerAuthInfoInstalled() bool
+//@ func authenticatedPeerInfo
+//@   ensures [only_this_packages_auth_info] res1 ==> hasDynType(deref(p).AuthInfo, AuthInfo)
+//@   defines res1 ==> peerAuthInfoInstalled()
+//@ func IsTrustedPeer
+//@   ensures [trusted_only_with_installed_auth_info] result ==> peerAuthInfoInstalled()
